@@ -34,7 +34,7 @@ type c19Pkg struct {
 	files map[string]*ast.File // rel path -> file
 	names []string
 	// functions by key: "Recv.Name" for methods, "Name" for functions
-	funcs map[string]*ast.FuncDecl
+	funcs  map[string]*ast.FuncDecl
 	fileOf map[*ast.FuncDecl]*ast.File
 }
 
@@ -204,10 +204,12 @@ func userParamIndex(g *Gen, f *ast.File, fd *ast.FuncDecl) map[int]string {
 }
 
 // authzReached: which authorizers a function reaches with the user value held in `param`:
-//   "admin"  — `if !<user>.AuthorizeUnrestricted() { … return }`
-//   "write"  — h.WriteAuthorizer.AuthorizeWrite(<user>.ID(), db)
-//   "write@db" — the same, after the handler looked the database up (MetaClient.Database / validateDatabase)
-//   "query"  — h.QueryAuthorizer.AuthorizeQuery(<user>, q, db)
+//
+//	"admin"  — `if !<user>.AuthorizeUnrestricted() { … return }`
+//	"write"  — h.WriteAuthorizer.AuthorizeWrite(<user>.ID(), db)
+//	"write@db" — the same, after the handler looked the database up (MetaClient.Database / validateDatabase)
+//	"query"  — h.QueryAuthorizer.AuthorizeQuery(<user>, q, db)
+//
 // following calls inside the package that pass the user value on.
 func (p *c19Pkg) authzReached(fd *ast.FuncDecl, body ast.Node, param string, seen map[string]bool, out map[string]bool, dbChecked bool) {
 	g := p.g
@@ -282,8 +284,8 @@ func (p *c19Pkg) authzReached(fd *ast.FuncDecl, body ast.Node, param string, see
 
 type c19Route struct {
 	src, cond, name, method, pattern, compress, logging, handler, sig string
-	authz                                                              []string
-	lit                                                                string // body of a func-literal handler
+	authz                                                             []string
+	lit                                                               string // body of a func-literal handler
 }
 
 // leanChars renders a string as a Lean `List Char` literal.
@@ -945,7 +947,9 @@ func genC19(g *Gen) error {
 	}
 	sort.Slice(rp, func(i, j int) bool { return rp[i][0] < rp[j][0] })
 	g.PairList("requiredPrivileges", rp)
-	genC19Flows(g, p, routes)
+	if err := genC19Flows(g, p, routes); err != nil {
+		return err
+	}
 	if err := genC19Wide(g); err != nil {
 		return err
 	}
